@@ -19,6 +19,32 @@ def e1(rng, n):
         yield "E1:eager:" + g.mode, P, (lambda P=P: build(P))
 
 
+def e1_lazy(rng, n):
+    """programs whose reductions survive eager evaluation (the reduced variable occurs in a lazy operand), with operations on top:
+    drives the rules registered for lazy Contractions under every semiring family"""
+    import funsor
+    from funsor.interpretations import lazy, normalize
+
+    from .build import build
+    from .gen.e1 import Gen
+
+    allow = {"lazyred", "lazyred", "un", "bin", "sub", "red"}
+    for i in range(n):
+        g = Gen(rng, real_vars=0.15, mode=["arith", "tropical", "nonneg"][i % 3], allow=allow)
+        P = g.k_lazyred(2, ()) if i % 2 == 0 else g.real(3, ())
+        if i % 3 == 0:
+            yield "E1-lazy:eager", P, (lambda P=P: build(P))
+        else:
+            ctx = [lazy, normalize][i % 2]
+
+            def thunk(P=P, ctx=ctx):
+                with ctx:
+                    L = build(P)
+                return funsor.reinterpret(L)
+
+            yield "E1-lazy:routes", P, thunk
+
+
 def e1_routes(rng, n):
     import funsor
     from funsor.interpretations import lazy, moment_matching, normalize, reflect, sequential
@@ -143,7 +169,7 @@ def _mod(name):
 
 def engines():
     """name -> generator function(rng, n)"""
-    out = {"E1": e1, "E1-routes": e1_routes, "E2": e2, "E3": e3, "E4": e4, "einsum": einsum, "E12-synth": synth}
+    out = {"E1": e1, "E1-lazy": e1_lazy, "E1-routes": e1_routes, "E2": e2, "E3": e3, "E4": e4, "einsum": einsum, "E12-synth": synth}
     for name, label in (("c09", "E5-plated"), ("c10", "E6-markov"), ("c11", "E7-adjoint"), ("c12", "E8-gaussian"), ("c13", "E9-marginals"),
                         ("c14", "E10-sampling"), ("c18", "E14-compiler")):
         out[label] = (lambda rng, n, name=name: _mod(name).workload(rng, n))
